@@ -360,7 +360,7 @@ class Context:
         self.pc.append(cond if b else z3.Not(cond))
         return b
 
-    def prove(self, goal, timeout_ms=20000, extra_assumptions=()):
+    def prove(self, goal, timeout_ms=20000, extra_assumptions=(), guided=True):
         """Return (verdict, info). verdict in proved / refuted / unknown.
         refuted carries a model (dict name->value)."""
         goal = lift(goal)
@@ -384,14 +384,17 @@ class Context:
                     STATS["numeric_refutations"] = STATS.get("numeric_refutations", 0) + 1
                     return "refuted", nm
             except Exception:
-                pass
+                import os
+                if os.environ.get("PYVC_DEBUG"):
+                    import traceback
+                    traceback.print_exc()
         r, s = self.check_sat(list(extra_assumptions) + [z3.Not(goal.t)], timeout_ms)
         if r == z3.unsat:
             return "proved", None
         if r == z3.sat:
             m = s.model()
             return "refuted", m
-        m = self._guided_refutation(goal, extra_assumptions)
+        m = self._guided_refutation(goal, extra_assumptions) if guided else None
         if m is not None:
             return "refuted", m
         return "unknown", s
@@ -419,12 +422,9 @@ class Context:
                 import traceback
                 traceback.print_exc()
         try:
+            from . import numeval
             terms = [goal.t] + list(self.pc) + list(extra_assumptions)
-            vs = {}
-            for t in terms:
-                for v in z3util.get_vars(t):
-                    vs[v.get_id()] = v
-            vs = [v for v in vs.values() if z3.is_real(v) or z3.is_int(v)]
+            vs = [v for v in numeval.free_consts(terms).values() if z3.is_real(v) or z3.is_int(v)]
             if not vs:
                 return None
             rnd = random.Random(len(vs) * 7919 + len(self.pc))
